@@ -195,6 +195,27 @@ def build(tier="quick", seed=0):
         pack.add(Obligation(name, lambda tier, name=name, expr=expr: prove_paths(name, th_entry(expr), lambda p: (p.value[0] == p.value[2] and p.value[1] == "stop", f"reading by path with the text selector yields {p.value[0]} (ended {p.value[1]}), testing each record afterwards keeps {p.value[2]}")),
                             replay=lambda w, expr=expr: {"call": "c10_entry", "args": {"expr": expr}}, functions=FU + ("flow.record.base:RecordAdapter", "flow.record.base:RecordReader"), mode="path-based entry point, text selector"))
 
+    # ------------------------------------------------------------------ `record in selector` is the same test as selector.match(record), for both engines
+    def th_contains(eng, expr):
+        def th():
+            A = it.call(RD, ["c10/a", [("varint", "n"), ("string", "s")]], {})
+            recs = [it.call(A, [], {"n": 5, "s": "a"}), it.call(A, [], {"n": None, "s": "b"}), it.call(A, [], {"n": 7, "s": ""}), it.call(A, [], {"n": 9, "s": "d"})]
+            s1, s2 = it.call(sel.g[eng], [expr], {}), it.call(sel.g[eng], [expr], {})
+            def outcome(f):
+                try:
+                    return bool(it.truth(f()))
+                except PyRaise as e:  # (an unset field compared by the compiled engine raises - in both forms alike)
+                    return f"raise {e.cls_name}"
+
+            return [outcome(lambda: it.contains(s1, r)) for r in recs], [outcome(lambda: it.call(it.getattr_(s2, "match"), [r], {})) for r in recs]
+        return th
+
+    for eng in ("Selector", "CompiledSelector"):
+        for expr in ("r.n > 6 or r.s == 'b'", "r.s"):
+            name = f"C10.entry[record in {eng}({expr!r}) is match(record)]"
+            pack.add(Obligation(name, lambda tier, name=name, eng=eng, expr=expr: prove_paths(name, th_contains(eng, expr), lambda p: (p.value[0] == p.value[1], f"`record in selector` gives {p.value[0]}, selector.match(record) gives {p.value[1]}")),
+                                replay=lambda w, eng=eng, expr=expr: {"call": "c10_contains", "args": {"eng": eng, "expr": expr}}, functions=FU + (f"flow.record.selector:{eng}.__contains__",), mode="membership form of the test, four records"))
+
     # ------------------------------------------------------------------ make_selector
     def th_make():
         mk = sel.g["make_selector"]
